@@ -1,5 +1,6 @@
 import HdModel.Model.Util
 import HdModel.Spec.Eyeballs
+import HdModel.Model.Dns
 namespace Hd.Eyeballs
 
 def optTok (s : String) : Option Nat := if s == "-" then none else some (natTok s)
@@ -60,4 +61,59 @@ def driverLine (inp obs : List String) : Bool × Bool × String × String :=
       let agree := if m.2.tie then v.isNone else decide (m.1 = o.res) && decide (m.2.starts = o.starts)
       (agree, v.isNone, v.getD "-", shown)
 
+/-- `tcpc <T|-> <conc|-> <connect_timeout|-> <bind6> ; <cand> ; … | <ok|timeout|err> <winner|kind|-> <elapsed> ; <accepted|->…`
+    The real `TcpTransport::connect_to_addrs` on loopback sockets, in real time. The model composes what the code
+    composes: `TcpTransport::connecting` (address order, `Dns.connectingOrder`), `TcpConnecting::connect`
+    (`tcpCfg`: stagger delay = deadline / number of candidates) and the happy-eyeballs set (`run`), with each kind of
+    candidate as an attempt: accepts at once, fails at once, never answers (fails at the per-attempt connect timeout if
+    one is set). Times are compared within 70 ms. -/
+def tcpcLine (inp obs : List String) : Bool × Bool × String × String :=
+  if obs == ["unreliable"] then (true, true, "-", "skipped") else
+  let splitSemi := fun (l : List String) =>
+    l.foldr (fun t acc => if t == ";" then [] :: acc else match acc with | [] => [[t]] | x :: xs => (t :: x) :: xs) ([[]] : List (List String))
+  match splitSemi inp, splitSemi obs with
+  | [t, conc, ct, b6] :: cands, [[k, w, el], accepted] =>
+    let kinds := cands.filterMap List.head?
+    let n := kinds.length
+    let bind6 := b6 == "1"
+    let addrs : List Dns.Addr := (List.range n).map fun i => { v6 := (kinds.getD i "").endsWith "6", id := i, port := 0 }
+    let order := Dns.connectingOrder (t != "-") false bind6 addrs
+    let attOf := fun (kind : String) => (match kind with
+      | "ok" => ({ lat := some 0, out := .ok } : Attempt)
+      | "ok6" => { lat := some 0, out := if bind6 then .err else .ok }
+      | "hang" => { lat := optTok ct, out := .err }
+      | _ => { lat := some 0, out := .err })
+    let errKind := fun (kind : String) =>
+      if kind.endsWith "6" && bind6 then "bind" else if kind == "hang" then "ctimeout" else "refused"
+    let atts := order.map fun a => attOf (kinds.getD a.id "")
+    let m := run (tcpCfg (optTok t) (optTok conc) n) atts
+    let idOf := fun (j : Nat) => (order.getD j { v6 := false, id := 999, port := 0 }).id
+    let shown := match m.1 with
+      | .ok j tm => s!"ok {idOf j} {tm}"
+      | .firstErr j tm => s!"err {errKind (kinds.getD (idOf j) "")} {tm}"
+      | .timeout tm => s!"timeout - {tm}"
+      | .noProgress tm => s!"noprogress - {tm}"
+      | .hang => "hang - -"
+    if m.2.tie then (true, true, "-", shown ++ " (tie)") else
+    let near := fun (a b : Nat) => a ≤ b + 70 && b ≤ a + 70
+    let e := natTok el
+    let outcomeOk := match m.1 with
+      | .ok j _ => k == "ok" && w == toString (idOf j)
+      | .firstErr j _ => k == "err" && w == errKind (kinds.getD (idOf j) "")
+      | .timeout _ => k == "timeout"
+      | .noProgress _ => k == "err"
+      | .hang => k == "hang"
+    let timeOk := match m.1 with
+      | .ok _ tm => near e tm | .firstErr _ tm => near e tm | .timeout tm => near e tm | .noProgress tm => near e tm | .hang => true
+    -- a listener that accepted a connection belongs to a candidate the model starts
+    let started := m.2.starts.map fun p => idOf p.1
+    let extra := (accepted.zip (List.range n)).any fun (a, i) => a != "-" && a != "0" && !started.contains i
+    let cls : List String :=
+      (if !outcomeOk then ["C10/tcp-wrong-outcome"] else []) ++
+      (if outcomeOk && !timeOk then ["C11/tcp-pacing-or-deadline"] else []) ++
+      (if extra then ["C11/tcp-candidate-started-out-of-turn"] else [])
+    (cls.isEmpty, cls.isEmpty, if cls.isEmpty then "-" else ",".intercalate cls, shown)
+  | _, _ => (false, false, "C10/unparsable-observation", "")
+
 end Hd.Eyeballs
+
